@@ -19,7 +19,12 @@ Logged(op, s, t) == log' = Append(log, [op |-> op, s |-> s, t |-> t])
 Save(s) == /\ Len(log) < MaxOps /\ disk' = [disk EXCEPT ![s] = live] /\ Logged("save", s, 0) /\ UNCHANGED <<live, restored, fresh>>
 Restore(s) == /\ Len(log) < MaxOps /\ disk[s] # None /\ restored' = [restored EXCEPT ![s] = disk[s]] /\ Logged("restore", s, 0)
               /\ UNCHANGED <<live, disk, fresh>>
-Recompute(s) == /\ Len(log) < MaxOps /\ restored[s] # None /\ Logged("recompute", s, 0) /\ UNCHANGED <<live, disk, restored, fresh>>
+\* critical_path() on a restored object keeps graph and path weight; with several longest paths it may settle on another one of the same
+\* weight (alt), and the object then carries that path and its breakdown (what a later save of the restored object writes)
+Recompute(s) == /\ Len(log) < MaxOps /\ restored[s] # None /\ Logged("recompute", s, 0)
+                /\ \E alt \in BOOLEAN :
+                      restored' = IF alt THEN [restored EXCEPT ![s] = [@ EXCEPT !.p = @ \o "~", !.b = @ \o "~"]] ELSE restored
+                /\ UNCHANGED <<live, disk, fresh>>
 SaveRestored(s, t) == /\ Len(log) < MaxOps /\ restored[s] # None /\ disk' = [disk EXCEPT ![t] = restored[s]] /\ Logged("save_restored", s, t)
                       /\ UNCHANGED <<live, restored, fresh>>
 Reweight == /\ Len(log) < MaxOps /\ live' = V(fresh) /\ fresh' = fresh + 1 /\ Logged("reweight", 0, 0) /\ UNCHANGED <<disk, restored>>
@@ -27,7 +32,10 @@ Next == Reweight \/ \E s \in Slots : Save(s) \/ Restore(s) \/ Recompute(s) \/ \E
 Spec == Init /\ [][Next]_vars
 
 \* a restored object always equals some version that was live when it (or its ancestor) was saved, and the slot content it came from
-RestoredIsSaved == \A s \in Slots : restored[s] # None => \E n \in 0..(fresh - 1) : restored[s] = V(n)
+RestoredIsSaved == \A s \in Slots : restored[s] # None => \E n \in 0..(fresh - 1) : restored[s].g = V(n).g /\ restored[s].pw = V(n).pw
+\* ... and carries exactly the saved path unless a recomputation happened on it or on an ancestor
+PathOnlyChangedByRecompute == (\A k \in DOMAIN log : log[k].op # "recompute") =>
+                                 \A s \in Slots : restored[s] # None => \E n \in 0..(fresh - 1) : restored[s] = V(n)
 DiskNeverAhead == \A s \in Slots : disk[s] # None => disk[s].pw <= live.pw
 Emit == (Len(log) = EmitAt) => PrintT("@@E " \o ToJson(log))
 =============================================================================
